@@ -220,6 +220,19 @@ func (p *Proxy) Modify(stream spb.GRIBI_ModifyServer) error {
 	return err
 }
 
+// LastAckType returns the acknowledgement type negotiated by the most recently opened Modify
+// session whose parameters were accepted (RIB_ACK if there is none).
+func (p *Proxy) LastAckType() spb.SessionParameters_AFTResultStatusType {
+	p.mu.Lock()
+	defer p.mu.Unlock()
+	for i := len(p.sess) - 1; i >= 0; i-- {
+		if pr := p.sess[i].Params; pr != nil {
+			return pr.GetAckType()
+		}
+	}
+	return spb.SessionParameters_RIB_ACK
+}
+
 // LiveNegotiated returns the number of sessions other than s whose RPC is still running and
 // whose parameters were accepted.
 func (p *Proxy) LiveNegotiated(s *Sess) int {
